@@ -26,17 +26,15 @@ def decList (f : String) : List Arg :=
 def encItem (a : Arg) : String := "s" ++ encodeStr a
 def encList (l : List Arg) : String := ",".intercalate (l.map encItem)
 
-def tablesOf (cls : String) : Option Tables :=
-  match cls with
-  | "base" => some baseTables
-  | "clike" => some clikeTables
-  | "d" => some dTables
-  | _ => none
+def entryOf (cls : String) : Option (String × Bool × Tables) :=
+  allTables.find? (fun e => e.1 == cls)
+
+def tablesOf (cls : String) : Option Tables := (entryOf cls).map (fun e => e.2.2)
 
 def cfgOf (cls : String) (gnu : Bool) (dirs : List Arg) : Option Cfg :=
-  (tablesOf cls).map fun T =>
-    { K := T.classify, always := T.alwaysDedupArgs,
-      native := if cls == "clike" then .clike gnu dirs else .plain }
+  (entryOf cls).map fun e =>
+    { K := e.2.2.classify, always := e.2.2.alwaysDedupArgs,
+      native := if e.2.1 then .clike gnu dirs else .plain }
 
 def parseOp (ts : List String) : Option Op :=
   match ts with
